@@ -149,3 +149,62 @@ def doPlay (f : Option (PHook × Bool)) (c : PP) : PP × Option Err :=
   if f = some (.playing, true) then (c, some true) else (c, none)
 
 end Fault
+
+namespace Fault
+
+/-! ### user code that is called in a loop which swallows exceptions: listeners (`EventHelper.fire_event`) and cleanups (`on_close`)
+
+```
+for listener in list(self.listeners):            for cleanup in self._cleanups or []:
+    try: getattr(listener, name)(*args)              try: cleanup()
+    except Exception as exception: LOGGER.error      except Exception: self.logger.exception(...)
+```
+A callback is its effect on whatever it can reach (`σ`) and whether it raises when it is done with it. -/
+
+structure Callback (σ : Type) where
+  eff : σ → σ
+  raises : Bool
+
+/-- the loop: state reached, number of callbacks that ran, number of exceptions logged; nothing propagates -/
+def callAll {σ : Type} (cbs : List (Callback σ)) (s : σ) : σ × Nat × Nat :=
+  cbs.foldl (fun acc cb => (cb.eff acc.1, acc.2.1 + 1, if cb.raises then acc.2.2 + 1 else acc.2.2)) (s, 0, 0)
+
+/-- the same callbacks, none of them raising -/
+def quiet {σ : Type} (cbs : List (Callback σ)) : List (Callback σ) := cbs.map fun cb => { cb with raises := false }
+
+/-! ### construction: `StateMachineMeta.__call__` = `__init__`, `transition_to(CREATED)`, `init()`
+
+The ENTERING callback of the initial transition is the user's `on_create`; `Process.transition_failed` re-raises while creating
+(`final_state == CREATED`), so `__call__` never returns the instance. -/
+
+/-- `f = some after`: `on_create` raises before (`false`) / after (`true`) calling `super().on_create()` -/
+def construct (f : Option Bool) : Option PS × Option Err :=
+  let c : PS := { label := .created }
+  let r : Res :=
+    if f = some false then (c, some true) else
+    andThen (c, none) fun c => if f = some true then (c, some true) else (c, none)
+  match r with
+  | (c, none) => (some c, none)
+  | (_, some e) => (none, some e)
+
+/-! ### `Process.out(port, value)` inside a step function: `on_output_emitting`, validation, store, `on_output_emitted`
+(base: notify the listeners) -/
+
+inductive OHook | emitting | emitted
+deriving DecidableEq, Repr, Inhabited
+
+structure Outs where
+  stored : Bool := false
+  notified : Bool := false
+deriving DecidableEq, Repr, Inhabited
+
+/-- one `out()` call with a valid value; the exception (if any) propagates into the step function that made the call -/
+def outCall (f : Option (OHook × Bool)) : Outs × Option Err :=
+  if f = some (.emitting, false) then ({}, some true) else
+  if f = some (.emitting, true) then ({}, some true) else          -- base `on_output_emitting` does nothing
+  let o : Outs := { stored := true }
+  if f = some (.emitted, false) then (o, some true) else
+  let o := { o with notified := true }
+  if f = some (.emitted, true) then (o, some true) else (o, none)
+
+end Fault
